@@ -42,6 +42,12 @@ def replay_c16(case):
         M = 1 if case["contr"] != "generalized" else 2
         cen = [cg.dyadic(rng.uniform(-1, 1) * 0.55, 8) for _ in range(3)] if case["geom"] != "coincident" else [[0, 0]] * 3
         basis.append(cg.shell(rng, rng.randint(1 if M > 1 else 0, case.get("lmax", 4)), K=K, M=M, typ=ty, lo=0.3, hi=2.5, cen=cen))
+    if case["contr"] == "generalized":
+        # the zero-padded layout of a segmented table stored as one generalized shell: every column has a structural zero
+        co_ = basis[0]["coeffs"]
+        if len(co_) >= 2 and len(co_[0]) >= 2:
+            co_[0][1] = [0, 0]
+            co_[-1][0] = [0, 0]
     if case["geom"] == "coincident" and len(set(case["types"])) == 2 and case["id"] % 2 == 0:
         # one centre, a Cartesian shell two units of l above a pure one: Cartesian d, f, g hold s, p, (s, d) parts, so these
         # one-centre blocks do not vanish although the angular momenta differ
@@ -154,6 +160,8 @@ def replay_c17(case):
         M = 1 if case["contr"] != "generalized" else 2
         lo, hi = (0.1, 10.0) if eri else ((5.0, 50.0) if geom == "farnear" and k == 0 else (0.05, 50.0))
         l = rng.randint(1 if geom == "isosceles" else 0, 2 if eri else 3)
+        if geom == "dependent" and k == 0 and not eri and case["id"] % 2 == 0:
+            l = rng.choice([2, 3])            # the tight twins carry high Boys orders
         if geom == "isosceles" and k >= 1:
             sh = dict(basis[0], center=cens[k])
         elif geom in ("dependent", "farnear") and k % 2:
@@ -181,19 +189,20 @@ def replay_c17(case):
         res["violations"].append("an overlap element exceeds 1 in magnitude (%.12g)" % np.abs(S).max())
     psd("kinetic_energy_integral", m("gbasis.integrals.kinetic_energy").kinetic_energy_integral(shells), 1e-9)
     c0 = np.array([cg.val(x) for x in basis[0]["center"]])
-    pos = np.array([list(c0 + np.array([rng.uniform(-3, 3) for _ in range(3)])) for _ in range(2)] + [list(c0)])
+    npos = 7 if (geom == "dependent" and n >= 2) else 3
+    pos = np.array([list(c0 + np.array([rng.uniform(-3, 3) for _ in range(3)])) for _ in range(npos - 1)] + [list(c0)])
     if geom == "dependent" and n >= 2:
         # a charge at the distance where the Boys argument of the first primitive pair is just below 20 for the first shell
         # and just above for its displaced twin: nearly dependent functions must be treated consistently across any
         # change of evaluation regime of F_m
         a0 = cg.val(basis[0]["exps"][0])
         # (T0 = 12..36: wherever an implementation might switch between a series, a table and an asymptotic form)
-        for slot, T0 in enumerate(rng.sample([12.0, 16.0, 20.0, 25.0, 30.0, 36.0], 2)):
+        for slot, T0 in enumerate([12.0, 16.0, 20.0, 25.0, 30.0, 36.0]):
             dT = 4 * a0 * (T0 / (2 * a0)) ** 0.5 * twin_gap          # T(twin, twin) - T(shell, shell) for a charge on the -z side
             pos[slot] = c0 - np.array([0.0, 0.0, ((T0 - 0.2 * dT) / (2 * a0)) ** 0.5])   # T(shell, shell) < T0 < T(shell, twin)
-    q = np.array([rng.uniform(0.2, 5.0) for _ in range(3)])
+    q = np.array([rng.uniform(0.2, 5.0) for _ in range(npos)])
     V = m("gbasis.integrals.point_charge").point_charge_integral(shells, pos, q)
-    for c in range(3):
+    for c in range(npos):
         psd("point_charge_integral of a positive charge", V[:, :, c], 1e-9, sign=-1)
     if not eri and case["id"] % 3 == 0:
         from . import reuse
